@@ -120,6 +120,8 @@ pub fn main(o: &Opts) -> Result<i32, String> {
     let mut sig_count: HashMap<String, usize> = HashMap::new();
     let mut viol_total = 0usize;
     let mut samples: Vec<Value> = vec![];
+    // how often each failure cause of the model occurs in the replayed scenarios (vacuity check of the enumeration)
+    let mut cause_hist: BTreeMap<String, usize> = BTreeMap::new();
     std::fs::create_dir_all(format!("{replay_dir}/{prop}")).ok();
 
     // scenarios are streamed in chunks: TLC dumps can be gigabytes
@@ -146,6 +148,23 @@ pub fn main(o: &Opts) -> Result<i32, String> {
         }
         let base = n_scn;
         n_scn += scns.len();
+        for scn in &scns {
+            if let Some(steps) = scn["steps"].as_array() {
+                for st in steps {
+                    let e = &st["exp"];
+                    if e["res"].as_str() == Some("err") {
+                        if let Some(c) = e.get("cause").and_then(|c| c.as_str()) {
+                            *cause_hist.entry(c.to_string()).or_default() += 1;
+                        }
+                        if let Some(a) = e.get("causes").and_then(|c| c.as_array()) {
+                            for c in a.iter().filter_map(|x| x.as_str()) {
+                                *cause_hist.entry(c.to_string()).or_default() += 1;
+                            }
+                        }
+                    }
+                }
+            }
+        }
         let mut jobs: Vec<Job> = vec![];
         for (sl, scn) in scns.iter().enumerate() {
             let si = base + sl;
@@ -333,6 +352,7 @@ pub fn main(o: &Opts) -> Result<i32, String> {
         "distinct_cases": distinct_cases, "distinct_names": distinct_names.len(),
         "slack_diverged": slack, "scenarios_without_names": no_names, "encrypt_ops_observed": enc_ops,
         "tool_errors": tool_errors, "violations": viols, "violations_total": viol_total, "samples": samples,
+        "cause_histogram": cause_hist,
     });
     if let Some(p) = o.get("result") {
         std::fs::write(p, serde_json::to_vec_pretty(&res).unwrap()).map_err(|e| e.to_string())?;
